@@ -587,8 +587,10 @@ class ModelFeatures:
                 if self.covariate != tuple() or mfl.covariate != tuple():
                     if model is None:
                         warnings.warn("Need argument 'model' in order to compare covariates")
+                        return False
                     else:
-                        return True if self._subset_covariate(mfl, model) else False
+                        return True if self._subset_covariates(mfl, model) else False
+                return True
         else:
             return False
 
@@ -612,12 +614,12 @@ class ModelFeatures:
             cov_eval = cov.eval(model)
             for effect in cov_eval.fp:
                 for op in cov_eval.op:
-                    lhs[(effect, op)].append(product(cov_eval.parameter, cov_eval.covariate))
+                    lhs[(effect, op)].extend(product(cov_eval.parameter, cov_eval.covariate))
         for cov in mfl.covariate:
             cov_eval = cov.eval(model)
             for effect in cov_eval.fp:
                 for op in cov_eval.op:
-                    rhs[(effect, op)].append(product(cov_eval.parameter, cov_eval.covariate))
+                    rhs[(effect, op)].extend(product(cov_eval.parameter, cov_eval.covariate))
 
         for key in rhs.keys():
             if key not in lhs.keys():
